@@ -23,7 +23,7 @@ def run(rep, tier):
     lib.proof_gate(rep, PROP, THEOREMS, IMPORTS)
     n, cyc = (100, 300) if tier == "quick" else (6000, 500)
     n = rep.scale(n)
-    agg = runner.correspondence(rep, prop=PROP, mod_name="harness.bridgesim", driver_kind="bridge", ncases=n, extra=(cyc,),
+    agg = runner.correspondence(rep, prop=PROP, mod_name="harness.bridgesim", legal_only=True, driver_kind="bridge", ncases=n, extra=(cyc,),
                                 nontrivial=lambda r: r["stats"]["back_to_back"] >= 2 and r["stats"]["partial_sel"] >= 2,
                                 mask_model=mask_model,
                                 sample_fmt=lambda r: {"bridge": r["descr"], "cycles (cyc stb we adr sel dat_w csr.r_data)": r["lines"][1:6], "observed (csr addr r_stb w_stb w_data | ack)": r["obs"][:5]})
